@@ -388,16 +388,13 @@ func lenientHex(v interface{}) ([]byte, bool) {
 
 func readSem(data []byte) semFile {
 	var s semFile
+	if !json.Valid(data) { // exactly one JSON value, as json.Unmarshal demands
+		return s
+	}
 	dec := json.NewDecoder(bytes.NewReader(data))
 	dec.UseNumber()
 	var top map[string]interface{}
 	if err := dec.Decode(&top); err != nil || top == nil {
-		return s
-	}
-	if dec.More() {
-		return s // trailing garbage: encoding/json.Unmarshal rejects it
-	}
-	if _, err := dec.Token(); err == nil {
 		return s
 	}
 	s.parsed = true
